@@ -45,6 +45,7 @@ void vs_fmt_prims(char* buf, int cap);             /* "sem=.. o0=.. o1=.. o2=.. 
    were given is recorded; clock_gettime returns (sec, nsec) */
 void vs_capture(int on, long long sec, long long nsec);
 int vs_captured(long long* sec, long long* nsec);
+int vs_captured_clock(void);                      /* clock id the captured abstime is measured against (CLOCK_REALTIME = 0) */
 
 #ifdef __cplusplus
 }
